@@ -58,6 +58,9 @@ def cases(tier, seed):
         "weight": 1,
       }
     )
+  # concurrent waking of one sleeping cycle by several awake trees with different wake counters (free-running)
+  for i in range(6 if tier == "quick" else 80):
+    out.append({"id": f"wake{seed}_{i}", "mode": "perm", "kind": "wake", "seed": seed * 100000 + 6000 + i, "ncycle": 1 + i % 3, "K": K, "T": 48, "nworld": 32 if tier == "quick" else 64, "weight": 3})
   return out
 
 
@@ -76,11 +79,122 @@ def _run_steps(mjw, m, d, T, pre_states, sched_mode, key, sched):
   return snaps
 
 
+def _run_wake(case):
+  """Free-running comparison of the discrete sleep state under task-order permutations (see _wake.py)."""
+  import mujoco_warp as mjw
+
+  from mon import sched
+  from mon.props import _wake
+
+  rec = core.Rec(case)
+  rng = np.random.default_rng(case["seed"])
+  xml, mjm, lay = _wake.build(rng, case["ncycle"])
+  m = mw.put_model(mjm)
+  nworld, T, K = case["nworld"], case["T"], case["K"]
+  states = _wake.states(mjm, rng, nworld, lay)
+  body_tree = np.array(mjm.body_treeid)
+  geom_tree = body_tree[np.array(mjm.geom_bodyid)]
+
+  def run(mode, key):
+    d = mw.make_data(mjm, m, states)
+    tr = []
+    for t in range(T):
+      pre_asleep = np.array(d.tree_asleep.numpy())
+      sched.set_schedule(mode, (case["seed"] * 31 + key) * 64 + t)
+      mjw.step(m, d)
+      sched.set_schedule(0)
+      e = {"asleep": np.array(d.tree_asleep.numpy()), "qpos": np.array(d.qpos.numpy()), "qvel": np.array(d.qvel.numpy()), "ovf": np.array(d.overflow.numpy())}
+      if mode == 0:
+        e["pre_asleep"] = pre_asleep
+        e["con"] = [mw.contacts(d, w) for w in range(nworld)]
+      tr.append(e)
+    return tr
+
+  sched.set_schedule(0)
+  sched.reset_counters()
+  sched.start_log()
+  ref = run(0, 0)
+  # what the identity execution went through: sleeping trees, wake events, and wake events in which one sleeping cycle
+  # was touched in the same step by >=2 awake trees holding different counters (the order-sensitive situation)
+  slept = woke = merges = 0
+  for w in range(nworld):
+    for t in range(T):
+      pre, post = ref[t]["pre_asleep"][w], ref[t]["asleep"][w]
+      slept += int(np.sum((pre < 0) & (post >= 0)))
+      wk = np.nonzero((pre >= 0) & (post < 0))[0]
+      woke += len(wk)
+      if len(wk):
+        g = np.asarray(ref[t]["con"][w]["geom"]).reshape(-1, 2)
+        vals = set()
+        for g1, g2 in g:
+          t1, t2 = int(geom_tree[g1]), int(geom_tree[g2])
+          for a, b in ((t1, t2), (t2, t1)):
+            if a in wk and pre[b] < 0:
+              vals.add(int(pre[b]))
+        merges += int(len(vals) >= 2)
+  rec.cover("wake:trees_fell_asleep", slept)
+  rec.cover("wake:trees_woken", woke)
+  rec.cover("wake:world_steps_with_concurrent_wakers_of_different_counter", merges)
+  schedules = [(1, 0), (3, 5)] + [(2, 100 + k) for k in range(K)]
+  for mode, key in schedules:
+    got = run(mode, key)
+    for w in range(nworld):
+      for t in range(T):
+        a, b = ref[t], got[t]
+        if a["ovf"][w] or b["ovf"][w]:
+          rec.count("wake_worlds_ungated_overflow")
+          break
+        rec.check()
+        same_float = np.array_equal(a["qpos"][w], b["qpos"][w]) and np.array_equal(a["qvel"][w], b["qvel"][w])
+        if not np.array_equal(a["asleep"][w], b["asleep"][w]):
+          if same_float:
+            # identical float state after this step (and identical everything before): the discrete sleep state had
+            # identical inputs, so it may only differ through the order in which the wake/sleep tasks ran
+            pre = ref[t]["pre_asleep"][w]
+            diff = np.nonzero(a["asleep"][w] != b["asleep"][w])[0]
+            # mechanism class by what the differing trees were before the step: a self-cycle (woken directly), a member of
+            # a multi-tree sleep cycle (reached through the cycle walk of another member), or an awake tree
+            kinds = {("awake-tree" if pre[x] < 0 else ("single-tree-cycle" if pre[x] == x else "multi-tree-cycle")) for x in diff}
+            kind = "single-tree-cycle" if "single-tree-cycle" in kinds else ("awake-tree" if "awake-tree" in kinds else "multi-tree-cycle")
+            rec.viol(
+              "sleep:tree_asleep-depends-on-task-order:" + kind,
+              f"tree_asleep after step {t} world {w}: identity order {a['asleep'][w].tolist()} vs schedule(mode={mode},key={key}) {b['asleep'][w].tolist()} "
+              f"with bit-identical qpos/qvel (before the step: {ref[t]['pre_asleep'][w].tolist()}); ncycle={lay['ncycle']}",
+            )
+            rec.count("wake_world_divergent_sleep_state")
+          else:
+            rec.inconcl("sleep state and float state differ in the same step (threshold flip possible)")
+            rec.count("wake_world_inconclusive")
+          break
+        if not same_float:
+          err = max(float(np.abs(a["qpos"][w] - b["qpos"][w]).max()), float(np.abs(a["qvel"][w] - b["qvel"][w]).max()))
+          if err > 1e-2:
+            rec.viol("sleep:state-depends-on-task-order", f"qpos/qvel after step {t} world {w} differ by {err:.3g} under schedule(mode={mode},key={key}) with identical sleep state so far")
+          else:
+            rec.count("wake_world_roundoff_first")
+          break
+      else:
+        rec.count("wake_worlds_bit_identical")
+  log, names = sched.stop_log()
+  ctr = sched.counters()
+  rec.cover("launches", ctr["launches"])
+  rec.cover("tasks", ctr["tasks"])
+  rec.cover("launches_permuted_ge2", ctr["launches_permuted_ge2"])
+  rec.cover("kernels_permuted", sorted(names))
+  rec.cover("features", "scene:wake")
+  if woke and ctr["launches_permuted_ge2"] >= 20:
+    rec.nontrivial(xml, *[s["qpos"] for s in states])
+  rec.sample = {"scene": "wake", "ncycle": lay["ncycle"], "nworld": nworld, "steps": T, "fell_asleep": slept, "woken": woke, "concurrent_wakers": merges}
+  return rec.result()
+
+
 def run_case(case):
   import mujoco_warp as mjw
 
   from mon import sched
 
+  if case.get("kind") == "wake":
+    return _run_wake(case)
   rec = core.Rec(case)
   rng = np.random.default_rng(case["seed"])
   label, mjm, feats = scenes.scene(case["scene"])
@@ -186,4 +300,6 @@ def requirements(agg, tier):
     unmet.append(f"only {len(agg['cover'].get('kernels_permuted', []))} distinct kernels had their tasks permuted (<60)")
   if agg["tally"].get("world_steps_compared", 0) < 200:
     unmet.append("fewer than 200 gated world-steps compared")
+  if agg["cover"].get("wake:world_steps_with_concurrent_wakers_of_different_counter", 0) < 3:
+    unmet.append("fewer than 3 observed steps in which one sleeping cycle was woken by >=2 trees with different counters")
   return unmet
